@@ -72,6 +72,16 @@ PROPS = {
                       "documented form is rejected. Proved over a byte-level model of pkg/iprange tied to the code by a differential on the current tree.",
         "level_note": "net.ParseIP and strconv.Atoi are section variables (two hypotheses on ParseIP, checked per case).",
     },
+    "C01": {
+        "jobs": [sess_job(140, 2500, world=True)],
+        "rule": SESS_RULE + "; every 4th session is replayed against a world with different surroundings of the root (non-interference oracle)",
+        "assumptions": SESS_ASSUME,
+        "partial": ["the spellings of the root (relative, '.', trailing slash, via flag/env/ini) are decided with C19 on the real binary; "
+                    "generated images and key-file lookups are covered once C09-C11 views are part of the session model"],
+        "level_text": "Theorems C01_clamp (every byte string is clamped to real entry names below the root), C01_noninterference and "
+                      "C01_noninterference_stream (two worlds that agree below the root answer every request / byte stream identically and change "
+                      "only below the root), C01_conn_ok, C01_outside_untouched, over the session model.",
+    },
     "C02": {
         "jobs": [sess_job(140, 2500, keep_ops=["open_file", "read_file", "read_critical"])],
         "rule": SESS_RULE, "assumptions": SESS_ASSUME,
@@ -95,6 +105,13 @@ PROPS = {
                     "the Coq theorems cover the read-only half and purity of non-mutating requests"],
         "level_text": "Theorems C05_readonly (for every byte stream the world after a connection equals the world before when writing is disabled), "
                       "C05_refused, C05_reads_pure over the session model.",
+    },
+    "C06": {
+        "jobs": [sess_job(140, 2500, keep_ops=["open_dir", "dir_entry", "dir_entry_v2", "read_dir", "stat", "dir_size"])],
+        "rule": SESS_RULE, "assumptions": SESS_ASSUME,
+        "partial": ["symlinks (resolved / dangling omitted) are outside the Coq model and judged by the direct oracle only"],
+        "level_text": "Theorems C06_opendir, C06_bulk (READ_DIR = one record per statable entry, a permutation of the directory, true fields), "
+                      "C06_iter (entry-by-entry enumeration yields each entry once then the end marker, any mix of V1/V2), C06_stat, C06_dirsize, C06_names.",
     },
     "C13": {
         "jobs": [sess_job(140, 2500, keep_ops=[], held=True, leak=True)],
